@@ -59,8 +59,10 @@ CHECKS = {
     "C08": _rt("Every mock device instance carries a life-cycle automaton (open once; start only when not started; exactly one stop per start; "
                "frame/append only while started; no call after close; closed exactly once by shutdown at the latest; released instances are "
                "snapshotted and re-compared). Client programs from the usage grammar (configure, start, trigger, monitor, stop, abort, "
-               "re-configure with other devices, stream on/off, shutdown+init) run under generated schedules; acquire_get_state == Running is "
-               "cross-checked with live worker fibers and must be Armed after stop/abort.",
+               "re-configure with other devices, stream on/off, shutdown+init, start while running, poll-then-continue-without-stop, and - in "
+               "C08 runs - configure while running) run under generated schedules; acquire_get_state == Running is cross-checked with live "
+               "worker fibers and must be Armed after stop/abort. Two genuine defects of configure-while-running are recorded as known "
+               "findings (DESIGN.md 8.1a) and tolerated by signature.",
                "property-based testing of API programs with a per-device life-cycle automaton",
                "DESIGN.md section 3, harness rt, C08"),
     "C09": {"level": "fault_enumeration",
